@@ -8,6 +8,21 @@ use std::sync::Arc;
 use crate::storage::skiplist::SkipList;
 use crate::storage::stream::Stream;
 
+/// Parse the canonical decimal form of an i64, as Redis does (string2ll) for the value and the
+/// increment of INCR / DECR / INCRBY / DECRBY: an optional '-', then digits without a leading
+/// zero (the single "0" excepted).  No '+', no "-0", no leading zeros, no surrounding space,
+/// nothing out of range: exactly the strings that `i64::to_string` produces.
+pub fn parse_canonical_i64(bytes: &[u8]) -> Option<i64> {
+    let negative = bytes.first() == Some(&b'-');
+    let digits = if negative { &bytes[1..] } else { bytes };
+    match digits.first() {
+        Some(b'0') => if digits.len() == 1 && !negative { Some(0) } else { None },
+        // a first digit 1-9: what `parse` accepts from here on is digits only
+        Some(b'1'..=b'9') => std::str::from_utf8(bytes).ok()?.parse::<i64>().ok(),
+        _ => None,
+    }
+}
+
 /// All possible Redis value types
 #[derive(Debug, Clone)]
 pub enum Value {
@@ -101,15 +116,11 @@ impl Value {
         Value::String(n.to_string().into_bytes())
     }
     
-    /// Try to parse string value as integer
+    /// Try to parse string value as integer (the canonical decimal form only, see
+    /// `parse_canonical_i64`)
     pub fn as_integer(&self) -> Option<i64> {
         match self {
-            Value::String(bytes) => {
-                std::str::from_utf8(bytes)
-                    .ok()?
-                    .parse::<i64>()
-                    .ok()
-            }
+            Value::String(bytes) => parse_canonical_i64(bytes),
             _ => None,
         }
     }
